@@ -284,6 +284,7 @@ def check_array_path(rep, f, label, rows, dom, P, is_class, base, tc=None, copy_
     adopted = False
     memcpy_class = None
     viol = []
+    holes = {}
     events = P.events
     for k, node, p in events:
         if k != 'c': continue
@@ -330,6 +331,9 @@ def check_array_path(rep, f, label, rows, dom, P, is_class, base, tc=None, copy_
                     viol.append(('AR.1', node, f'copies source elements [{src[2]}, {src[3]}) into destination [{lo}, {hi}): source and destination index differ'))
             elif rk == 'destroy':
                 if b in g.live:
+                    if is_class and g.eq(g.live[b], hi) is not True and g.le(hi, g.live[b]) is not False and b not in holes and g.lin(lo) is not None and g.lin(hi) is not None:
+                        # elements in the middle are destroyed (an erase): a hole, to be closed by moving the tail down before anything else looks
+                        holes[b] = (lo, hi, node); continue
                     if is_class and g.eq(g.live[b], hi) is False: viol.append(('AR.2', node, f'destroys [{lo}, {hi}) but the live elements are [0, {g.live[b]}): ' + ('storage holding no element is destroyed' if g.le(g.live[b], hi) else 'elements beyond the range stay alive')))
                     g.live[b] = lo
         elif kind == 'elem':
@@ -344,11 +348,22 @@ def check_array_path(rep, f, label, rows, dom, P, is_class, base, tc=None, copy_
             dst, src, nb = p[1], p[2], p[3]
             n = g.nbytes(nb, node, 'memcpy')
             if not tc and not (isinstance(src, Ptr) and src.base == 'data0'): memcpy_class = node          # moving the array's own elements to a new block is relocation, which the element types in scope allow
+            if isinstance(dst, Ptr) and dst.base in holes:
+                lo_, hi_, hn_ = holes[dst.base]
+                tail = (g.lin(g.live[dst.base]) - g.lin(hi_)) if g.lin(g.live[dst.base]) is not None else None
+                if (isinstance(src, Ptr) and src.base == dst.base and isinstance(dst.off, Lin) and isinstance(src.off, Lin) and g.eq(dst.off, lo_) is True and g.eq(src.off, hi_) is True
+                        and n is not None and tail is not None and g.eq(n, tail) is True):
+                    g.live[dst.base] = g.lin(g.live[dst.base]) - (g.lin(hi_) - g.lin(lo_)); del holes[dst.base]
+                else:
+                    viol.append(('AR.2', node, f'elements [{lo_}, {hi_}) were destroyed in the middle of the array and the tail [{hi_}, {g.live[dst.base]}) is not moved down onto them exactly (memmove of {n} element(s) from {getattr(src, "off", "?")} to {getattr(dst, "off", "?")}) ?unk'))
+                continue
             if isinstance(dst, Ptr) and dst.base in g.live and n is not None: g.live[dst.base] = n
             if isinstance(dst, Ptr) and n is not None and g.alloc.get(dst.base) is not None and g.le(n, g.alloc[dst.base]) is False:
                 viol.append(('AR.5', node, f'memcpy of {n} elements into a block of {g.alloc[dst.base]}'))
         elif kind == 'algo':
             pass
+    for b_, (lo_, hi_, hn_) in holes.items():
+        viol.append(('AR.2', hn_, f'destroys [{lo_}, {hi_}) but the live elements are [0, {g.live[b_]}): elements beyond the range stay alive'))
     for r, node, why in g.problems: viol.append((r, node, why))
     if memcpy_class is not None: viol.append(('AR.4', memcpy_class, COPY_MEMCPY))
     # exit state
